@@ -88,7 +88,9 @@ func (v SmallByteVecView) Backing() Node {
 }
 
 func (v SmallByteVecView) Copy() (View, error) {
-	return v, nil
+	c := make(SmallByteVecView, len(v), len(v))
+	copy(c, v)
+	return c, nil
 }
 
 func (v SmallByteVecView) ValueByteLength() (uint64, error) {
